@@ -51,7 +51,8 @@ def subsample(U, k, seed):
         return [U[i] for i in idx]
     groups = {}
     for i, d in enumerate(U):
-        key = (d["opt"], d["nl"], d["cb"][0], d["obj"], d["flt"][0], d["flt"][1], all(p == "fixed" for p in d["bp"]), "bad" in d["bp"])
+        key = (d["opt"], d["nl"], d["cb"][0], d["obj"], d["flt"][0], d["flt"][1], all(p == "fixed" for p in d["bp"]), "bad" in d["bp"],
+               ("narrow" in d["bp"]) and not d["sc"])
         groups.setdefault(key, []).append(i)
     keys = sorted(groups)
     for g in keys:
@@ -117,6 +118,12 @@ def _x0(pos, lb, ub):
             x[i] = l - 1.5 if fl else mid - 1.5
         elif pos == "above":
             x[i] = u + 1.5 if fu else mid + 1.5
+        elif pos == "zero":
+            x[i] = 0.0
+            if fl:
+                x[i] = max(x[i], l)
+            if fu:
+                x[i] = min(x[i], u)
         elif pos == "far":
             x[i] = (0.5 if i == 0 else -4.0 + i)
             if fl:
@@ -147,6 +154,14 @@ def _objective(kind, n):
         def noisy(x):
             return float(np.sum(w * (x - 0.25 * t) ** 2) + 1e-3 * math.sin(1e3 * float(np.sum(x))))
         return noisy
+    if kind == "negsq":          # symmetric about the origin: exact merit ties in the sampling
+        def negsq(x):
+            return float(-np.sum(x ** 2))
+        return negsq
+    if kind == "negabs":
+        def negabs(x):
+            return float(-np.sum(np.abs(x)))
+        return negabs
     if kind == "sum":
         def total(x):
             return float(np.sum(x))
@@ -203,6 +218,8 @@ def _nonlinear(kind):
     if kind == "vector":
         return [("nlc", lambda x: np.array([_sq(x), float(x[0]) + 0.5 * math.sin(float(x[-1]))]),
                  np.array([-np.inf, -0.5]), np.array([1.5, 0.75]))]
+    if kind == "plane_ub":       # different violations at symmetric points
+        return [("nlc", lambda x: float(x[0]) + 0.5 * float(x[-1]) + 0.25 * _sq(x), -np.inf, -0.25)]
     if kind == "sin_eq":
         return [("nlc", lambda x: float(x[-1]) - math.sin(3.0 * float(x[0])), 0.0, 0.0)]
     if kind == "circle_eq":
@@ -388,6 +405,24 @@ def _options(opt, nfree, sc, ref=None):
         o["maxiter"] = 5
     elif opt in ("target", "target2", "target3"):
         o["target"] = {"target": 6.0, "target2": 2.5, "target3": 0.75}[opt]
+    elif opt == "rho_big":
+        o["radius_init"] = 0.5
+        o["radius_final"] = 0.2
+    elif opt == "rho_eq":
+        o["radius_init"] = 0.0625
+        o["radius_final"] = 0.0625
+    elif opt == "rho0":
+        o["radius_final"] = 0.0
+        o["maxfev"] = 80
+    elif opt == "rho_tiny":
+        o["radius_init"] = 1e-8
+        o["radius_final"] = 1e-12
+    elif opt == "rho_huge":
+        o["radius_init"] = 1e5
+        o["radius_final"] = 1e-2
+        o["maxfev"] = 150
+    elif opt.startswith("k_"):
+        pass
     elif opt == "target_huge":
         o["target"] = 1e300
     elif opt == "tol0":
@@ -459,8 +494,24 @@ def _place_trigger(d, fun, x0, bounds, cons, nfree):
     return out
 
 
+CONSTANT_PROFILES = {
+    "k_irf15": {"increase_radius_factor": 1.5},
+    "k_irf11": {"increase_radius_factor": 1.125},
+    "k_drt12": {"decrease_radius_threshold": 1.25},
+    "k_drf25": {"decrease_radius_factor": 0.25},
+    "k_drf75": {"decrease_radius_factor": 0.75, "increase_radius_threshold": 1.25},
+    "k_res": {"decrease_resolution_factor": 0.5, "large_resolution_threshold": 2.0,
+              "moderate_resolution_threshold": 2.0},
+    "k_res2": {"decrease_resolution_factor": 0.125, "large_resolution_threshold": 4.0},
+    "k_ratio": {"low_ratio": 0.3, "high_ratio": 0.31, "very_low_ratio": 0.2},
+    "k_pen": {"penalty_increase_threshold": 1.0, "penalty_increase_factor": 1.125},
+    "k_misc": {"short_step_threshold": 0.9, "low_radius_factor": 0.5, "byrd_omojokun_factor": 0.5,
+               "large_shift_factor": 0.0, "resolution_factor": 1.25, "improve_tcg": False},
+}
+
+
 def build(d):
-    """descriptor -> dict(fun, x0, bounds, constraints, callback, options, meta)"""
+    """descriptor -> dict(fun, x0, bounds, constraints, callback, options, constants, meta)"""
     from scipy.optimize import Bounds, NonlinearConstraint
 
     n = d["n"]
@@ -514,4 +565,5 @@ def build(d):
     else:
         cons_arg = cons
     return dict(fun=fun, x0=x0, bounds=bounds, constraints=cons_arg, callback=cb, options=opts,
+                constants=dict(CONSTANT_PROFILES.get(optk, {})),
                 meta={"did": did(d), "valid": True, "consistent": consistent, "d": d})
